@@ -69,6 +69,9 @@ def uniq (s : St) : Bool :=
     (s.objs.filter fun p => p.ctrl == .xr && !p.deleting && p.annot == o.annot).length ≤ 1
 
 def handler : Handler := fun scn => do
+  -- the monitor-only family (harness/main/c01.go c01GenConn: composed resources with a connection
+  -- secret, whose read inside ObserveComposedResources the model has no step for): nothing to compare
+  if has scn "direct" then return (Json.mkObj [], true, "")
   let mode := str scn "mode"
   let objs0 := (arr scn "objs").map objOf
   let refs0 : List Ref := (arr scn "refs").map fun j => ⟨str j "kind", str j "name"⟩
